@@ -375,3 +375,33 @@ class Expander:
 
     def __call__(self, i):
         return self.fn.text(i, 0, self._cb)
+
+
+def stream_parts(fn, stream_text):
+    """Texts of everything inserted with << into the stream whose text is stream_text."""
+    parts = []
+    for j in fn.calls():
+        n = fn.nodes[j]
+        if n["k"] != "call" or n.get("op") != "<<":
+            continue
+        if "recv" in n and len(n.get("args", [])) == 1:
+            left, val = n["recv"], n["args"][0]
+        elif len(n.get("args", [])) == 2:
+            left, val = n["args"][0], n["args"][1]
+        else:
+            continue
+        cur = left
+        while True:
+            m = fn.nodes[fn.strip(cur)]
+            if m["k"] == "call" and m.get("op") == "<<":
+                if "recv" in m and len(m.get("args", [])) == 1:
+                    cur = m["recv"]
+                elif len(m.get("args", [])) == 2:
+                    cur = m["args"][0]
+                else:
+                    break
+            else:
+                break
+        if fn.text(cur) == stream_text:
+            parts.append(fn.text(val))
+    return parts
